@@ -1,5 +1,6 @@
 import Rcgen.Theorems.C02
 import Rcgen.Theorems.C08
+import Rcgen.Proofs.Profile
 /-
   C05 — output satisfies the structural MUSTs of the RFC 5280 / RFC 2986 profile.
   Stated on the trees the writers produce (criticality flag = presence of BOOLEAN TRUE in the
@@ -119,6 +120,31 @@ theorem crl_profile (H : Hashes) (p : CrlParams) (i : Issuer) :
     · intro h; simp [h]
     · intro d h; simp only [h]; exact ⟨_, rfl, extNode_critical _ _ _⟩
   · intro h; simp [tbsCertList, h]
+
+/-- **the certificate profile read off the decoded certificate**: every clause of
+    `Spec.c05CertClauses` — version 3; the automatic serial positive and within 20 octets
+    (hypothesis `hser`, discharged by `auto_serial` for any hash family with ≥ 20 output octets
+    whose first 159 bits are not all zero); subject alternative name critical exactly when the
+    subject is empty; basic constraints critical whenever cA is asserted; name constraints
+    critical; authority and subject key identifiers non-critical; each of rcgen's own eight
+    extension identifiers at most once — holds of the encoded to-be-signed certificate, for all
+    parameters whose subject name is in a reachable state (`Inv`, C20) -/
+theorem cert_profile_decoded (i : Spec.CertInputs)
+    (hinv : certInvalid i.p i.issuer = none)
+    (hnp : certPanics i.p i.issuer = false)
+    (hc : ∀ e ∈ i.p.customExts, e.oid ∉ Proofs.X509.knownOids)
+    (hsize : (encode (tbsCertificate i.H i.p i.subject i.issuer)).length < 256 ^ 126)
+    (hdn : Inv i.p.dn)
+    (hser : i.p.serial.isSome = true ∨ (0 < Spec.reqSerial i ∧ Spec.reqSerial i < 2 ^ 159)) :
+    Spec.c05CertClauses i (encode (tbsCertificate i.H i.p i.subject i.issuer)) = [] :=
+  Proofs.Profile.c05_cert_clauses_hold i hinv hnp hc hsize hdn hser
+
+/-- each of rcgen's own extension identifiers occurs at most once in a certificate -/
+theorem own_extension_oids_unique (i : Spec.CertInputs)
+    (hc : ∀ e ∈ i.p.customExts, e.oid ∉ Proofs.X509.knownOids) (o : List Nat)
+    (ho : o ∈ Proofs.X509.knownOids) :
+    ((Proofs.CertDecode.modelExts i).filter (fun e => e.oid == o)).length ≤ 1 :=
+  Proofs.Profile.own_oid_at_most_once i hc o ho
 
 /-- the same profile read off the *decoded* CRL: every clause of `Spec.c05CrlClauses` (v2,
     nextUpdate present, AKI and CRL number exactly once and non-critical, IDP critical, no empty
